@@ -30,6 +30,54 @@ class Module:
         self.tree = ast.parse(self.source, self.path)
         self.lines = self.source.splitlines()
         self._consts: dict[str, Any] = {}
+        self.generated: list[str] = []
+        self._expand_exec_templates()
+
+    def _expand_exec_templates(self) -> None:
+        """Class bodies of the form `for <names> in (<literal tuples>): exec(TEMPLATE.format(k=<name>, ...), globals(),
+        locals())` define methods from a module-level string template.  The text handed to exec is reconstructed exactly
+        (template constant + str.format with the loop's literal values), parsed, and the resulting definitions are added
+        to the class body, so the generated methods are verified like written ones.  Nothing else is interpreted."""
+        templates = {}
+        for st in self.tree.body:
+            if isinstance(st, ast.Assign) and len(st.targets) == 1 and isinstance(st.targets[0], ast.Name) \
+                    and isinstance(st.value, ast.Constant) and isinstance(st.value.value, str):
+                templates[st.targets[0].id] = st.value.value
+        for cls in [n for n in ast.walk(self.tree) if isinstance(n, ast.ClassDef)]:
+            extra = []
+            for st in cls.body:
+                if not (isinstance(st, ast.For) and len(st.body) == 1 and isinstance(st.body[0], ast.Expr)
+                        and isinstance(st.body[0].value, ast.Call) and ast.unparse(st.body[0].value.func) == 'exec'):
+                    continue
+                call = st.body[0].value
+                fmt = call.args[0] if call.args else None
+                if not (isinstance(fmt, ast.Call) and isinstance(fmt.func, ast.Attribute) and fmt.func.attr == 'format'
+                        and isinstance(fmt.func.value, ast.Name) and fmt.func.value.id in templates and not fmt.args):
+                    continue
+                try:
+                    rows = ast.literal_eval(st.iter)
+                except (ValueError, SyntaxError):
+                    continue
+                names = [t.id for t in st.target.elts] if isinstance(st.target, ast.Tuple) else [st.target.id]
+                for row in rows:
+                    row = row if isinstance(row, tuple) else (row,)
+                    env = dict(zip(names, row))
+                    try:
+                        kw = {k.arg: env[k.value.id] for k in fmt.keywords}
+                    except (KeyError, AttributeError):
+                        break
+                    text = templates[fmt.func.value.id].format(**kw)
+                    try:
+                        sub = ast.parse(text)
+                    except SyntaxError:
+                        break
+                    for d in sub.body:
+                        if isinstance(d, ast.FunctionDef):
+                            ast.increment_lineno(d, st.lineno - 1)
+                            d._generated_from = fmt.func.value.id
+                            extra.append(d)
+                            self.generated.append(f'{cls.name}.{d.name} <- {fmt.func.value.id}')
+            cls.body.extend(extra)
 
     # -- lookup -------------------------------------------------------------
     def find(self, qualname: str) -> ast.AST:
